@@ -24,9 +24,9 @@ SHIPPED = (100, 50000)
 
 TIERS = {
     'C01': {'quick': {'runs': 40000, 'budget_s': 100, 'chunk': 100},
-            'thorough': {'runs': 800000, 'budget_s': 1800, 'chunk': 400}},
+            'thorough': {'runs': 2400000, 'budget_s': 1800, 'chunk': 400}},
     'C17': {'quick': {'runs': 60000, 'budget_s': 100, 'chunk': 200},
-            'thorough': {'runs': 600000, 'budget_s': 1800, 'chunk': 400}},
+            'thorough': {'runs': 4000000, 'budget_s': 1800, 'chunk': 1000}},
 }
 
 RULE = {
